@@ -168,7 +168,7 @@ impl Prop for C16 {
     fn rule(&self) -> &'static str {
         "one run = a hot/cold pair of SimStores (cold store needs warm-up; in half of the runs it rejects pack reads that were not warmed up) under the library's own HotColdBackend, plus a single-store twin fed the same history \
          (backup, forget, repacking prune, config change, key add, key removal, copy of a snapshot from another repository into the pair; partly under seeded gate schedules). Oracles: (1) the combined hot+cold mutation log is replayed op by op and after EVERY op every key/snapshot/index/tree-pack file listed by cold must be in hot with identical bytes and no data pack may be in hot — i.e. at every crash prefix; \
-         (2) snapshot sets (tree id, time) equal the twin's and every snapshot reads back equal to its model; (3) for restore, repacking prune and repair_index on the rejecting cold store the commands succeed and every cold pack read is preceded by a warm-up request for that pack; \
+         (2) snapshot sets (tree id, time) equal the twin's and every snapshot reads back equal to its model; (3) for restore into an empty directory, a second restore onto that directory after damaging some of its files, repacking prune and repair_index on the rejecting cold store (all packs cooled down before each command) the commands succeed and every cold pack read is preceded by a warm-up request for that pack; \
          (4) a seeded subset (or all) of the hot files is removed, repair_hotcold_except_packs + repair_hotcold_packs run, the invariant holds again and check is clean; (5) one storage op of a backup fails on the hot or the cold store: the command returns Err and the per-op invariant still holds. \
          evaluations = ops replayed + end oracles; non-trivial = >= 10 ops replayed and a repack or a repair actually moved files; distinct = hash(history, config)"
     }
@@ -278,6 +278,7 @@ impl Prop for C16 {
                 }
                 2 => {
                     let before = files_digest(&sim.store.files());
+                    sim.store.cool_down();
                     let l0 = sim.store.log_len();
                     both!("prune", sim.prune(&mode, 1, &popts), twin.prune(&Mode::Free, 1, &popts));
                     if files_digest(&sim.store.files()) != before {
@@ -389,6 +390,7 @@ impl Prop for C16 {
         if rep.violations.is_empty() {
             if let Some(rec) = sim.snaps.values().last().cloned() {
                 let dest = fresh_dir(&env.tmp, "c16-restore");
+                sim.store.cool_down();
                 let (st, ht, ky, d2, sn) = (sim.store.clone(), sim.hot.clone(), sim.key.clone(), dest.clone(), rec.snap.clone());
                 let l0 = sim.store.log_len();
                 let r = sim.run(&Mode::Free, move || -> RusticResult<Result<(), String>> {
@@ -408,9 +410,58 @@ impl Prop for C16 {
                 if let Some(bad) = warm_up_order(&sim.store.log_from(l0)) {
                     rep.violation("C16/cold-pack-read-without-warm-up:restore", format!("restore performed `{bad}` on the cold store without a preceding warm-up of that pack"));
                 }
+                // second restore onto the same destination after damaging some of its files (same
+                // size, other first byte, other mtime): only the packs of the damaged blobs are needed
+                // now, and each of them must be warmed up before it is read
+                if rep.violations.is_empty() {
+                    make_removable(&dest);
+                    let mut damaged = 0;
+                    for (k, e) in &rec.model.entries {
+                        if let crate::model::Kind::File(b) = &e.kind {
+                            if !b.is_empty() && e.links == 1 && rng.chance(1, 2) {
+                                let p = dest.join(crate::model::path_of(k));
+                                if let Ok(mut data) = std::fs::read(&p) {
+                                    if let Ok(md) = std::fs::metadata(&p) {
+                                        use std::os::unix::fs::PermissionsExt;
+                                        let _ = std::fs::set_permissions(&p, std::fs::Permissions::from_mode(0o600));
+                                        let at = rng.usize(data.len());
+                                        data[at] ^= 0x5a;
+                                        if std::fs::write(&p, &data).is_ok() {
+                                            damaged += 1;
+                                        }
+                                        let _ = std::fs::set_permissions(&p, md.permissions());
+                                        // std::fs::write leaves the real "now" as mtime, which differs from the snapshot's
+                                    }
+                                }
+                            }
+                        }
+                    }
+                    rep.fire("destination_files_damaged_before_second_restore", damaged);
+                    sim.store.cool_down();
+                    let (st, ht, ky, d2, sn) = (sim.store.clone(), sim.hot.clone(), sim.key.clone(), dest.clone(), rec.snap.clone());
+                    let l1 = sim.store.log_len();
+                    let r = sim.run(&Mode::Free, move || -> RusticResult<Result<(), String>> {
+                        let repo = open_on(&st, &ht, 1, &ky)?.to_indexed()?;
+                        Ok(restore_into(&repo, &sn, &d2, &RestoreOptions::default(), false))
+                    });
+                    evaluations += 1;
+                    match r {
+                        Cmd::Ok(Ok(())) => {
+                            if let Err(e) = compare_dir(&dest, &rec.model, &CompareOpts::default()) {
+                                rep.violation("C16/second-restore-from-hot-cold-differs", e);
+                            }
+                        }
+                        Cmd::Ok(Err(e)) => rep.violation(format!("C16/second-restore-from-hot-cold-failed:{}", common::classify(&e)), e),
+                        r => rep.violation(format!("C16/second-restore-{}", r.class()), r.detail()),
+                    }
+                    if let Some(bad) = warm_up_order(&sim.store.log_from(l1)) {
+                        rep.violation("C16/cold-pack-read-without-warm-up:second-restore", format!("restore onto a damaged destination performed `{bad}` on the cold store without a preceding warm-up of that pack"));
+                    }
+                }
                 make_removable(&dest);
                 let _ = std::fs::remove_dir_all(&dest);
             }
+            sim.store.cool_down();
             let (st, ht, ky) = (sim.store.clone(), sim.hot.clone(), sim.key.clone());
             let l0 = sim.store.log_len();
             let (lc0, lh0) = (sim.store.log_len(), hot.log_len());
